@@ -78,17 +78,27 @@ def match_types(writer_type, reader_type, named_schemas):
 def _reader_branches(w_schema, r_union, named_schemas):
     """The branches of a reader union in the order they are tried: the first
     branch that matches the writer schema without promotion wins, so the
-    branches of the writer's own type come before the others"""
+    branches of the writer's own type come before the others, and among those
+    a named type with the writer's full name comes first"""
 
-    def kind(schema, names):
+    def definition(schema, names):
         if isinstance(schema, str) and schema in names:
-            schema = names[schema]
-        return extract_record_type(schema)
+            return names[schema]
+        return schema
 
-    w_kind = kind(w_schema, named_schemas["writer"])
-    same = [s for s in r_union if kind(s, named_schemas["reader"]) == w_kind]
-    other = [s for s in r_union if kind(s, named_schemas["reader"]) != w_kind]
-    return same + other
+    w_def = definition(w_schema, named_schemas["writer"])
+    w_kind = extract_record_type(w_def)
+    w_name = w_def.get("name") if isinstance(w_def, dict) else None
+
+    def rank(schema):
+        r_def = definition(schema, named_schemas["reader"])
+        if extract_record_type(r_def) != w_kind:
+            return 2
+        if w_name is not None and isinstance(r_def, dict) and r_def.get("name") == w_name:
+            return 0
+        return 1
+
+    return sorted(r_union, key=rank)
 
 
 def match_schemas(w_schema, r_schema, named_schemas):
